@@ -618,7 +618,25 @@ async fn main(plan: Plan) -> Outcome {
         if o.kind != 0 && o.kind != 3 {
             continue;
         }
-        let Ok(rows) = &o.result else { continue };
+        let rows = match &o.result {
+            Ok(rows) => rows,
+            Err(e) => {
+                // When the server sent rows together with their metadata on a connection
+                // that stayed alive, the caller must be able to decode them.
+                let transport = ["roken", "onnection", "imed out", "imeout", "pool", "repared", "Unable to allocate"];
+                if !transport.iter().any(|t| e.contains(t)) {
+                    if let Some(last) = execs.iter().rev().find(|x| x.marker == Some(o.marker)) {
+                        if matches!(last.answer, Answer::Rows { with_metadata: true, .. }) && conn_alive_at(last.conn) {
+                            out.violation(
+                                "c14.rows_undecodable",
+                                format!("marker {}: the server answered with rows and their metadata but the caller got: {e}", o.marker),
+                            );
+                        }
+                    }
+                }
+                continue;
+            }
+        };
         // The answer the caller consumed is the last Rows answer for its marker.
         let Some(last) = execs.iter().rev().find(|e| e.marker == Some(o.marker) && matches!(e.answer, Answer::Rows { .. })) else {
             if !rows.is_empty() {
